@@ -12,6 +12,7 @@
 typedef unsigned __int128 u128;
 static uint64_t rng_s;
 static uint64_t rnd(void) { uint64_t z = (rng_s += 0x9E3779B97F4A7C15ull); z = (z ^ (z >> 30)) * 0xBF58476D1CE4E5B9ull; z = (z ^ (z >> 27)) * 0x94D049BB133111EBull; return z ^ (z >> 31); }
+static size_t rndn(size_t n) { return n ? (size_t)(rnd() % n) : 0; }
 
 static long n_eval, n_nontrivial, n_viol; static char samples[6][200]; static int n_samples; static char viol[8][400]; static char viol_replay[8][200];
 static long cls[16]; static const char* cls_names[16] = { "bin_sizes", "good_size_vs_usable", "slice_bins", "fast_divide", "block_addr_small_medium", "block_addr_large", "align_up_down", "divide_up", "mul_overflow", "bit_ops", "wsize_clamp", "boundary_sizes", 0 };
@@ -55,6 +56,27 @@ static void check_good_size(size_t n, int real_alloc) {
   // with padding compiled in, good_size adds the padding before choosing the class; usable size is exact: only >= is meaningful
   if (real_alloc && n <= MI_MEDIUM_OBJ_SIZE_MAX) { void* p = mi_malloc(n); if (p) { size_t u = mi_usable_size(p); if (u < n) violation(rp, "usable-small: mi_usable_size(mi_malloc(%zu))=%zu", n, u); mi_free(p); } }
 #endif
+}
+// the same relation under allocation histories: which pages exist and which one heads its queue must not influence the class a request is served from
+// (mode 0: descending sweep keeping one live block per class; mode 1: ascending by class, each class first allocated right after the next larger one;
+//  mode 2: seeded random order with a random live set)
+#if MI_PADDING
+#define VF_EXACT_USABLE 0
+#else
+#define VF_EXACT_USABLE 1
+#endif
+static void check_good_size_history(int mode, uint64_t seed) {
+  char rp[200]; snprintf(rp, sizeof rp, "hist %d %llu", mode, (unsigned long long)seed); uint64_t saved = rng_s; rng_s = seed * 0x9E3779B97F4A7C15ull + 777;
+  static void* keep[20000]; size_t nk = 0; size_t maxn = 16 * 1024; long bad = 0;
+  #define ONE(n) do { size_t n_ = (n); void* p_ = mi_malloc(n_); n_eval++; cls[1]++; if (p_) { size_t u_ = mi_usable_size(p_), g_ = mi_good_size(n_); \
+      if (u_ < n_ || (VF_EXACT_USABLE && u_ != g_)) { if (bad++ < 3) violation(rp, "good-size-usable-history: after other allocations mi_usable_size(mi_malloc(%zu))=%zu but mi_good_size(%zu)=%zu", n_, u_, n_, g_); } \
+      if (nk < 20000 && keep_it) keep[nk++] = p_; else mi_free(p_); } } while (0)
+  if (mode == 0) { for (size_t n = maxn; n >= 1; n--) { int keep_it = (bin_size_of(_mi_bin(n)) == n); ONE(n); } }
+  else if (mode == 1) { size_t c = 8; while (c < maxn) { size_t next = bin_size_of(_mi_bin(c + 1)); int keep_it = 1; ONE(next); for (size_t d = 0; d < 16 && d < c; d++) { keep_it = (d == 0); ONE(c - d); } c = next; } }
+  else { for (int i = 0; i < 30000; i++) { size_t n = (rndn(4) == 0 ? bin_size_of(_mi_bin(1 + rndn(maxn))) - rndn(9) : 1 + rndn(maxn)); if (n == 0 || n > maxn) n = 1; int keep_it = (rndn(3) == 0); ONE(n); if (nk > 0 && rndn(4) == 0) { size_t k = rndn(nk); mi_free(keep[k]); keep[k] = keep[--nk]; } } }
+  #undef ONE
+  for (size_t i = 0; i < nk; i++) mi_free(keep[i]);
+  n_nontrivial += 1; rng_s = saved;
 }
 static void check_slice_count(size_t c) {
   char rp[200]; snprintf(rp, sizeof rp, "slices %zu", c); n_eval++; cls[2]++;
@@ -143,7 +165,7 @@ static uint64_t boundary64(void) {   // values around powers of two / SIZE_MAX /
 static int do_replay(const char* path) {
   FILE* f = fopen(path, "r"); if (!f) { perror(path); return 2; } char line[256]; replaying = 1;
   while (fgets(line, sizeof line, f)) { if (line[0] == '#') continue; char fn[32]; unsigned long long a = 0, b = 0, c = 0; int k = sscanf(line, "%31s %llu %llu %llu", fn, &a, &b, &c); if (k < 2) continue;
-    if (!strcmp(fn, "size")) check_size(a, 0); else if (!strcmp(fn, "good")) check_good_size(a, (int)b); else if (!strcmp(fn, "slices")) check_slice_count(a); else if (!strcmp(fn, "div")) check_divide(a, b, c);
+    if (!strcmp(fn, "size")) check_size(a, 0); else if (!strcmp(fn, "good")) check_good_size(a, (int)b); else if (!strcmp(fn, "hist")) check_good_size_history((int)a, b); else if (!strcmp(fn, "slices")) check_slice_count(a); else if (!strcmp(fn, "div")) check_divide(a, b, c);
     else if (!strcmp(fn, "addr")) blocks_for_size(a, 3, a > MI_MEDIUM_OBJ_SIZE_MAX); else if (!strcmp(fn, "align")) check_align(a, b); else if (!strcmp(fn, "divup")) check_divup(a, b); else if (!strcmp(fn, "mul")) check_mul(a, b);
     else if (!strcmp(fn, "bits")) check_bits(a); else if (!strcmp(fn, "wsize")) check_wsize(a, b, c); }
   fclose(f); if (n_viol == 0) printf("PASS\n"); return n_viol ? 1 : 0;
@@ -166,6 +188,8 @@ int main(int argc, char** argv) {
     if (n <= MI_MEDIUM_OBJ_SIZE_MAX + 16) check_good_size(n, 1);
   }
   sample("size 65536 (exhaustive sweep 0..131072: bin size >= n, monotone, waste <= 25%, good_size == usable size of a real mi_malloc)");
+  check_good_size_history(0, seed); check_good_size_history(1, seed); for (int r = 0; r < (thorough ? 40 : 4); r++) check_good_size_history(2, seed * 100 + (uint64_t)r);
+  sample("hist 1 (each size class first used right after the next larger one: usable size == mi_good_size for the 16 sizes below every class boundary)");
   // sizes at every power of two +- 8 up to PTRDIFF_MAX
   for (int k = 3; k < 63; k++) for (int d = -8; d <= 8; d++) { size_t n = ((size_t)1 << k) + (size_t)(int64_t)d; if (n > (size_t)PTRDIFF_MAX - 65536) continue; n_eval++; cls[11]++; n_nontrivial++;
     size_t b = _mi_bin(n); if (n > MI_MEDIUM_OBJ_SIZE_MAX && b != MI_BIN_HUGE) { char rp[64]; snprintf(rp, sizeof rp, "size %zu", n); violation(rp, "bin-not-huge: _mi_bin(%zu)=%zu", n, b); }
